@@ -6,6 +6,8 @@ import Driver.Aggr
 import Driver.Eval
 import Driver.Parse
 import Driver.Select
+import Driver.Fold
+import Driver.Project
 namespace Driver
-def handlers : List (List String → Option String) := [handleScan, handlePlans, handleOrder, handleAggr, handleEval, handleParse, handleSelect]
+def handlers : List (List String → Option String) := [handleScan, handlePlans, handleOrder, handleAggr, handleEval, handleParse, handleSelect, handleFold, handleProject]
 end Driver
